@@ -17,6 +17,7 @@ void v_assume_failed(const char *cond, const char *file, int line) {
   fprintf(stderr, "V_ASSUME_FAILED %s (%s:%d)\n", cond, file, line); fflush(stderr); _Exit(77); }
 void v_stop(void) { fprintf(stderr, "V_STOP path ends (error/longjmp model)\n"); fflush(stderr); _Exit(0); }
 struct v_site { const char *name; int n; int pos; const long long *vals; };
+static int v_rt_streq(const char *a, const char *b) { while (*a && *a == *b) { a++; b++; } return *a == *b; }
 '''
 
 
@@ -96,7 +97,7 @@ def values_header(scalars, structs):
         o.append('  {"%s", %d, 0, v_vals_%s},' % (n, len(vals), n))
     o.append('  {0,0,0,0}};')
     o.append(r'''long long v_next(const char *name) {
-  for (struct v_site *s = v_sites; s->name; s++) if (!strcmp(s->name, name)) {
+  for (struct v_site *s = v_sites; s->name; s++) if (v_rt_streq(s->name, name)) {
     if (s->pos < s->n) return s->vals[s->pos++];
     return 0; }
   return 0; }''')
@@ -113,15 +114,45 @@ def native_replay(h, prop, workdir):
     """Build and run the native twin for failing CBMC property `prop` (with trace).
     Returns dict(outcome: confirmed|clean|unreplayable|nobuild, output)."""
     nat = h.native
-    if not nat:
+    if nat is None:
         return {'outcome': 'no-twin', 'output': 'harness declares no native twin'}
     texts = [h.text] + [open(os.path.join(core.VERIF, e)).read() for e in h.extra_src]
     scalars, structs = extract(prop.get('trace'), texts)
     os.makedirs(workdir, exist_ok=True)
     open(os.path.join(workdir, 'replay_values.h'), 'w').write(values_header(scalars, structs))
     w = ['#include "replay_values.h"']
-    for tu in nat.get('tus', h.tus):
-        w.append('#include "%s"' % os.path.join(core.REPO, tu))
+    # callees whose bodies are stubbed out for CBMC: natively the *definition* in a copy of the TU is renamed
+    # (v_real_<fn>), calls keep the original name and therefore reach the harness stub, exactly as under CBMC
+    so = [core.plain(x) for x in h.meta.get('stub_out', [])]
+    from . import cscan
+    for k, tu in enumerate(nat.get('tus', h.tus)):
+        path = os.path.join(core.REPO, tu)
+        src = open(path).read()
+        m = cscan.mask(src)
+        edits = []
+        for fn in so:
+            try:
+                sig, bo, bc = cscan.find_function(src, m, fn)
+                edits.append((sig, fn))
+            except LookupError:
+                pass
+        for sig, fn in sorted(edits, reverse=True):
+            # forward declaration under the original name (taken from the definition's own signature),
+            # then rename the definition
+            k2 = sig - 1
+            while k2 > 0 and m[k2] not in ';}':
+                k2 -= 1
+            ds = k2 + 1 if k2 > 0 else 0
+            # skip blank space and (masked) preprocessor lines/comments
+            while ds < sig and m[ds].isspace():
+                ds += 1
+            close = cscan.match_close(m, src.index('(', sig), '(', ')')
+            proto = src[ds:close + 1] + ';\n'
+            src = src[:ds] + proto + src[ds:sig] + 'v_real_' + src[sig:]
+        if edits:
+            path = os.path.join(workdir, 'tu%d_%s' % (k, os.path.basename(tu)))
+            open(path, 'w').write('#line 1 "%s"\n' % os.path.join(core.REPO, tu) + src)
+        w.append('#include "%s"' % path)
     for e in h.extra_src:
         w.append('#include "%s"' % os.path.join(core.VERIF, e))
     w.append('#include "%s"' % h.path)
@@ -151,8 +182,24 @@ def native_replay(h, prop, workdir):
         out, rc = 'native replay timed out (60 s)', -1
     if rc in (126, 127) or 'error while loading shared libraries' in out:
         return {'outcome': 'nobuild', 'rc': rc, 'output': out, 'cmd': ' '.join(cmd)}
-    if 'V_VIOLATION' in out or 'AddressSanitizer' in out or 'runtime error:' in out or rc in (97, 98, 99) or rc < 0 and rc != -1:
+    san = 'AddressSanitizer' in out or 'runtime error:' in out or rc in (97, 98) or (rc < 0 and rc != -1)
+    first_frame = None
+    for ln in out.split('\n'):
+        mo = re.search(r'#\d+ .* (/\S+?):\d+', ln)
+        if mo and (mo.group(1).startswith(core.REPO + '/') or mo.group(1).startswith(core.VERIF + '/')):
+            first_frame = mo.group(1)
+            break
+    if 'runtime error:' in out and first_frame is None:
+        mo = re.search(r'(/\S+?):\d+:\d+: runtime error:', out)
+        first_frame = mo.group(1) if mo else None
+    if 'V_VIOLATION' in out or rc == 99:
         oc = 'confirmed'
+    elif 'pc points to the zero page' in out:
+        oc = 'harness-error'   # call through an unresolved symbol: the twin lacks a stub
+    elif san and first_frame and first_frame.startswith(core.REPO + '/'):
+        oc = 'confirmed'
+    elif san:
+        oc = 'harness-error'   # the twin itself crashed outside the real code: says nothing about /repo
     elif 'V_ASSUME_FAILED' in out:
         oc = 'unreplayable'
     else:
